@@ -23,6 +23,12 @@ pub fn q(s: &str) -> String {
     o.push('"');
     o
 }
+thread_local! { pub static WHY: std::cell::Cell<u32> = std::cell::Cell::new(0); }
+/// `None`, remembering the line that gave up (statistics of what lies outside the fragment)
+fn no<T>(line: u32) -> Option<T> {
+    WHY.with(|w| w.set(line));
+    None
+}
 fn b(x: bool) -> &'static str {
     if x {
         "t"
@@ -116,7 +122,7 @@ fn cexpr(e: &syn::Expr) -> Option<String> {
         syn::Expr::Path(p) if p.attrs.is_empty() && p.qself.is_none() && p.path.get_ident().is_some() => {
             Some(format!("(ident {})", q(&p.path.get_ident().unwrap().to_string())))
         }
-        _ => None,
+        _ => no(line!()),
     }
 }
 
@@ -130,11 +136,11 @@ fn garg(a: &syn::GenericArgument) -> Option<String> {
         syn::GenericArgument::Const(syn::Expr::Block(bl)) if bl.attrs.is_empty() && bl.label.is_none() && bl.block.stmts.len() == 1 => {
             match &bl.block.stmts[0] {
                 syn::Stmt::Expr(e, None) => Some(format!("(cblock {})", cexpr(e)?)),
-                _ => None,
+                _ => no(line!()),
             }
         }
         syn::GenericArgument::AssocType(a) if a.generics.is_none() => Some(format!("(assoc {} {})", q(&a.ident.to_string()), ty(&a.ty)?)),
-        _ => None,
+        _ => no(line!()),
     }
 }
 
@@ -144,7 +150,7 @@ fn seg(s: &syn::PathSegment) -> Option<String> {
         syn::PathArguments::None => Some(format!("(seg {id})")),
         syn::PathArguments::AngleBracketed(a) => {
             if a.colon2_token.is_some() || a.args.is_empty() || a.args.trailing_punct() {
-                return None;
+                return no(line!());
             }
             // syn prints lifetime arguments first: only lists written that way are inside the fragment
             let mut non_lt = false;
@@ -160,7 +166,7 @@ fn seg(s: &syn::PathSegment) -> Option<String> {
         }
         syn::PathArguments::Parenthesized(p) => {
             if p.inputs.trailing_punct() {
-                return None;
+                return no(line!());
             }
             let ins: Option<Vec<String>> = p.inputs.iter().map(ty).collect();
             let ret = match &p.output {
@@ -181,7 +187,7 @@ fn path_ty(qself: &Option<syn::QSelf>, p: &syn::Path) -> Option<String> {
         None => Some(format!("(path {} {})", b(p.leading_colon.is_some()), segs(p.segments.iter())?)),
         Some(qs) => {
             if qs.as_token.is_none() || qs.position == 0 || qs.position >= p.segments.len() {
-                return None; // `<T>::Assoc`: the model has no such form
+                return no(line!()); // `<T>::Assoc`: the model has no such form
             }
             Some(format!(
                 "(qpath {} {} {} {})",
@@ -211,14 +217,14 @@ pub fn ty(t: &syn::Type) -> Option<String> {
         syn::Type::Array(a) => Some(format!("(array {} {})", ty(&a.elem)?, cexpr(&a.len)?)),
         syn::Type::Tuple(t) => {
             if t.elems.len() != 1 && t.elems.trailing_punct() {
-                return None; // `(A, B,)`: the model prints tuples without a trailing comma
+                return no(line!()); // `(A, B,)`: the model prints tuples without a trailing comma
             }
             let v: Option<Vec<String>> = t.elems.iter().map(ty).collect();
             Some(format!("(tuple {})", v?.join(" ")))
         }
         syn::Type::BareFn(f) => {
             if f.variadic.is_some() || f.inputs.trailing_punct() || f.inputs.iter().any(|a| a.name.is_some() || !a.attrs.is_empty()) {
-                return None;
+                return no(line!());
             }
             let ins: Option<Vec<String>> = f.inputs.iter().map(|a| ty(&a.ty)).collect();
             let ret = match &f.output {
@@ -241,7 +247,7 @@ pub fn ty(t: &syn::Type) -> Option<String> {
         syn::Type::Never(_) => Some("never".into()),
         syn::Type::TraitObject(o) => {
             if o.dyn_token.is_none() || o.bounds.trailing_punct() {
-                return None;
+                return no(line!());
             }
             let mut it = o.bounds.iter();
             let first = match it.next()? {
@@ -256,7 +262,7 @@ pub fn ty(t: &syn::Type) -> Option<String> {
             Some(format!("(dyn {} {} {})", b(first.path.leading_colon.is_some()), segs(first.path.segments.iter())?, list(more)))
         }
         syn::Type::Macro(m) => Some(format!("(macro {})", toks(m.to_token_stream()))),
-        _ => None,
+        _ => no(line!()),
     }
 }
 
@@ -267,14 +273,14 @@ fn tbound(bd: &syn::TypeParamBound) -> Option<String> {
         syn::TypeParamBound::Lifetime(l) => Some(format!("(lt {})", lt(l))),
         syn::TypeParamBound::Trait(t) => {
             if t.paren_token.is_some() {
-                return None;
+                return no(line!());
             }
             let maybe = matches!(t.modifier, syn::TraitBoundModifier::Maybe(_));
             let lts = match &t.lifetimes {
                 None => vec![],
                 Some(bl) => {
                     if bl.lifetimes.trailing_punct() || bl.lifetimes.is_empty() {
-                        return None;
+                        return no(line!());
                     }
                     let mut v = vec![];
                     for p in &bl.lifetimes {
@@ -288,7 +294,7 @@ fn tbound(bd: &syn::TypeParamBound) -> Option<String> {
             };
             Some(format!("(trait {} {} {})", b(maybe), list(lts), path_ty(&None, &t.path)?))
         }
-        _ => None,
+        _ => no(line!()),
     }
 }
 fn tbounds<'a>(it: impl Iterator<Item = &'a syn::TypeParamBound>) -> Option<String> {
@@ -299,7 +305,7 @@ fn for_lts(bl: &Option<syn::BoundLifetimes>) -> Option<String> {
     let mut v = vec![];
     if let Some(bl) = bl {
         if bl.lifetimes.trailing_punct() {
-            return None;
+            return no(line!());
         }
         for p in &bl.lifetimes {
             match p {
@@ -308,7 +314,7 @@ fn for_lts(bl: &Option<syn::BoundLifetimes>) -> Option<String> {
             }
         }
         if v.is_empty() {
-            return None; // `for<>`
+            return no(line!()); // `for<>`
         }
     }
     Some(list(v))
@@ -317,22 +323,22 @@ fn wpred(p: &syn::WherePredicate) -> Option<String> {
     match p {
         syn::WherePredicate::Type(t) => {
             if t.bounds.trailing_punct() {
-                return None;
+                return no(line!());
             }
             Some(format!("(ty {} {} {})", for_lts(&t.lifetimes)?, ty(&t.bounded_ty)?, tbounds(t.bounds.iter())?))
         }
         syn::WherePredicate::Lifetime(l) => {
             if l.bounds.trailing_punct() {
-                return None;
+                return no(line!());
             }
             Some(format!("(lt {} {})", lt(&l.lifetime), list(l.bounds.iter().map(lt).collect())))
         }
-        _ => None,
+        _ => no(line!()),
     }
 }
 fn generics(g: &syn::Generics) -> Option<String> {
     if g.lt_token.is_some() && g.params.is_empty() {
-        return None;
+        return no(line!());
     }
     // `<T,>` and a lifetime written after a type / const parameter: syn moves lifetimes forward and keeps every comma, so
     // the self type `X<T,>` gets a trailing comma inside its generic arguments — the model's types have no such form
@@ -345,20 +351,20 @@ fn generics(g: &syn::Generics) -> Option<String> {
         }
     }
     if g.params.trailing_punct() {
-        return None;
+        return no(line!());
     }
     let mut ps = vec![];
     for p in &g.params {
         ps.push(match p {
             syn::GenericParam::Lifetime(l) => {
                 if !l.attrs.is_empty() || l.bounds.trailing_punct() || (l.colon_token.is_some() && l.bounds.is_empty()) {
-                    return None;
+                    return no(line!());
                 }
                 format!("(lt {} {})", lt(&l.lifetime), list(l.bounds.iter().map(lt).collect()))
             }
             syn::GenericParam::Type(t) => {
                 if !t.attrs.is_empty() || t.bounds.trailing_punct() || (t.colon_token.is_some() && t.bounds.is_empty()) {
-                    return None;
+                    return no(line!());
                 }
                 format!(
                     "(ty {} {} {})",
@@ -369,7 +375,7 @@ fn generics(g: &syn::Generics) -> Option<String> {
             }
             syn::GenericParam::Const(c) => {
                 if !c.attrs.is_empty() {
-                    return None;
+                    return no(line!());
                 }
                 format!(
                     "(const {} {} {})",
@@ -384,7 +390,7 @@ fn generics(g: &syn::Generics) -> Option<String> {
     let mut tw = false;
     if let Some(w) = &g.where_clause {
         if w.predicates.is_empty() {
-            return None; // `where` without predicates
+            return no(line!()); // `where` without predicates
         }
         tw = w.predicates.trailing_punct();
         for p in &w.predicates {
@@ -425,7 +431,7 @@ impl Parse for BoundEntry {
 fn bound_list(ts: TokenStream) -> Option<String> {
     let p = Punctuated::<BoundEntry, Token![,]>::parse_terminated.parse2(ts).ok()?;
     if p.trailing_punct() {
-        return None;
+        return no(line!());
     }
     let mut v = vec![];
     for e in p.iter() {
@@ -494,13 +500,13 @@ pub fn derive_ex_args(ts: TokenStream) -> Option<String> {
         match a {
             Arg::Flag(n) if n == "dump" => {
                 if dump {
-                    return None;
+                    return no(line!());
                 }
                 dump = true
             }
             Arg::List(n, ts) if n == "bound" => {
                 if bound.is_some() {
-                    return None;
+                    return no(line!());
                 }
                 bound = Some(bound_list(ts)?)
             }
@@ -566,20 +572,20 @@ fn helper_body(name: &str, a: &syn::Attribute) -> Option<String> {
         syn::Meta::NameValue(nv) => Some(format!("(nv {})", toks(nv.value.to_token_stream()))),
         syn::Meta::List(l) => {
             if !matches!(l.delimiter, syn::MacroDelimiter::Paren(_)) {
-                return None;
+                return no(line!());
             }
             // comparison attributes are parsed as templates: `$` stands for the field (`TemplateOf<..>` in compare_op.rs)
             let is_cmp = !matches!(name, "debug" | "default");
             let has_dollar = l.tokens.to_string().contains('$');
             if has_dollar && !is_cmp {
-                return None;
+                return no(line!());
             }
             let al = ArgList::parse.parse2(replace_dollar(l.tokens.clone(), &quote::quote!(__placeholder))).ok()?;
             let key_bad = is_cmp && ArgList::parse.parse2(replace_dollar(l.tokens.clone(), &quote::quote!((__placeholder.0)))).is_err();
             // an attribute that is not consumed is re-emitted as written; the model prints it from its structure: only the
             // canonical spelling (no trailing comma, arguments in the order the model prints them) is inside the fragment
             if al.1 {
-                return None;
+                return no(line!());
             }
             {
                 let rank = |a: &Arg| -> usize {
@@ -595,7 +601,7 @@ fn helper_body(name: &str, a: &syn::Attribute) -> Option<String> {
                 };
                 let ranks: Vec<usize> = al.0.iter().map(rank).collect();
                 if ranks.windows(2).any(|w| w[0] > w[1]) {
-                    return None;
+                    return no(line!());
                 }
             }
             match name {
@@ -665,7 +671,7 @@ fn helper_body(name: &str, a: &syn::Attribute) -> Option<String> {
                     }
                     // `$` anywhere but in `key` stays in the output as the internal placeholder: not modelled
                     if has_dollar && (by.as_ref().map(|t| t.to_string().contains("__placeholder")).unwrap_or(false) || bd.as_ref().map(|t| t.contains("\"$\"")).unwrap_or(false)) {
-                        return None;
+                        return no(line!());
                     }
                     Some(format!(
                         "(list (cmpargs {} {} {} {} {} {}))",
@@ -712,7 +718,7 @@ impl RawOr for syn::Ident {
 
 fn attr(a: &syn::Attribute) -> Option<String> {
     if !matches!(a.style, syn::AttrStyle::Outer) {
-        return None;
+        return no(line!());
     }
     let name = a.path().get_ident().map(|i| i.to_string());
     match name.as_deref() {
@@ -720,7 +726,7 @@ fn attr(a: &syn::Attribute) -> Option<String> {
             syn::Meta::List(l) if matches!(l.delimiter, syn::MacroDelimiter::Paren(_)) => {
                 Some(format!("(derive_ex {})", derive_ex_args(l.tokens.clone())?))
             }
-            _ => None,
+            _ => no(line!()),
         },
         Some(n @ ("ord" | "partial_ord" | "eq" | "partial_eq" | "hash")) => Some(format!("(cmp {n} {})", helper_body(n, a)?)),
         Some("debug") => Some(format!("(debug {})", helper_body("debug", a)?)),
@@ -744,7 +750,7 @@ fn fields(f: &syn::Fields) -> Option<String> {
     let mut v = vec![];
     for fd in it {
         if !matches!(fd.mutability, syn::FieldMutability::None) {
-            return None;
+            return no(line!());
         }
         v.push(format!(
             "(field {} {} {} {})",
@@ -791,7 +797,7 @@ pub fn item(ts: TokenStream) -> Option<String> {
         }
         syn::Item::Impl(i) => {
             if i.defaultness.is_some() || i.unsafety.is_some() {
-                return None;
+                return no(line!());
             }
             let tr = match &i.trait_ {
                 None => "none".to_string(),
@@ -816,7 +822,7 @@ pub fn item(ts: TokenStream) -> Option<String> {
             }
             Some(format!("(impl {} {} {tr} {} {})", attrs(&i.attrs)?, generics(&i.generics)?, ty(&i.self_ty)?, list(ms)))
         }
-        _ => None,
+        _ => no(line!()),
     }
 }
 
